@@ -33,11 +33,15 @@ pub struct FaultyStore {
     pub fail_read: Mutex<Option<&'static str>>,
     /// while non-zero, every mutating call first waits this many milliseconds (a replica that answers late)
     pub delay_ms: Arc<AtomicU64>,
+    /// one-shot: the next put / multi_put first waits this many milliseconds and is then refused (true) or carried out
+    pub slow_put: Mutex<Option<(u64, bool)>>,
+    /// when that wait was over
+    pub slow_released: Mutex<Option<std::time::Instant>>,
 }
 
 impl FaultyStore {
     pub fn on(inner: Arc<MemStore>) -> Self {
-        Self { inner, plan: Mutex::new(Plan::Ok), parked: Notify::new(), calls: Mutex::new(vec![]), fail_read: Mutex::new(None), fail_all: Arc::new(AtomicBool::new(false)), delay_ms: Arc::new(AtomicU64::new(0)) }
+        Self { inner, plan: Mutex::new(Plan::Ok), parked: Notify::new(), calls: Mutex::new(vec![]), fail_read: Mutex::new(None), fail_all: Arc::new(AtomicBool::new(false)), delay_ms: Arc::new(AtomicU64::new(0)), slow_put: Mutex::new(None), slow_released: Mutex::new(None) }
     }
 
     pub fn set_plan(&self, p: Plan) {
@@ -49,6 +53,19 @@ impl FaultyStore {
         if ms > 0 {
             tokio::time::sleep(std::time::Duration::from_millis(ms)).await;
         }
+    }
+
+    /// Err(()) = the slow write is refused after its wait
+    async fn maybe_slow_put(&self) -> Result<(), ()> {
+        let slow = self.slow_put.lock().take();
+        if let Some((ms, refuse)) = slow {
+            tokio::time::sleep(std::time::Duration::from_millis(ms)).await;
+            *self.slow_released.lock() = Some(std::time::Instant::now());
+            if refuse {
+                return Err(());
+            }
+        }
+        Ok(())
     }
 
     fn take_plan(&self) -> Plan {
@@ -126,6 +143,9 @@ impl Storage for FaultyStore {
     async fn put(&self, keyspace: &str, document: Document) -> Result<(), Self::Error> {
         self.calls.lock().push(format!("put {}", document.id()));
         self.maybe_delay().await;
+        if self.maybe_slow_put().await.is_err() {
+            return Err(injected());
+        }
         match self.take_plan() {
             Plan::Ok => self.inner.put(keyspace, document).await,
             Plan::Fail(_) => Err(injected()),
@@ -145,6 +165,9 @@ impl Storage for FaultyStore {
         let docs: Vec<Document> = documents.collect();
         self.calls.lock().push(format!("multi_put {:?}", docs.iter().map(|d| d.id()).collect::<Vec<_>>()));
         self.maybe_delay().await;
+        if self.maybe_slow_put().await.is_err() {
+            return Err(BulkMutationError::new(injected(), vec![]));
+        }
         match self.take_plan() {
             Plan::Ok => self.inner.multi_put(keyspace, docs.into_iter()).await,
             Plan::Fail(ok) => {
